@@ -30,8 +30,8 @@ def diff(got, want, path=""):
     if is_poly(got) or is_poly(want):
         ga, wa = _poly_atoms(got), _poly_atoms(want)
         # same non-polynomial atoms inside (or simple base atoms only) -> definite
-        g_complex = {a for a in ga if a[0] in ("call", "op", "ite")}
-        w_complex = {a for a in wa if a[0] in ("call", "op", "ite")}
+        g_complex = {a for a in ga if _is_complex(a)}
+        w_complex = {a for a in wa if _is_complex(a)}
         if g_complex == w_complex:
             return ("definite", path, got, want)
         # one complex atom each at the same role: recurse into them if the polynomial frame is the same
@@ -96,6 +96,12 @@ def diff(got, want, path=""):
             return ("structural", path, got, want)
         return _first(list(zip(got[1:], want[1:])), path + "/" + gk, indexed=True)
     return ("structural", path, got, want)
+
+
+def _is_complex(a):
+    """An atom whose meaning is not just a free symbol: it is, or contains, a call / operator / case distinction."""
+    from .sym import atoms_of
+    return any(x[0] in ("call", "op", "ite") for x in atoms_of(a))
 
 
 def _first(pairs, path, indexed=False):
